@@ -22,6 +22,7 @@
              never run: nothing is claimed about them)
      hazard  set of reasons why the planned tasks interfere with each other or with existing entries
      known   set of narrow constructs with a confirmed defect on the pinned tree (known/C19.txt)
+     refuse  tasks that cannot be carried out without harming another file (<source>.bak exists): they must fail cleanly
 
    Nothing in this module is derived from cmd/minify/*.go except where the property text itself fixes
    a detail the README leaves open (the ";\n" separator of JavaScript bundles).                         *)
@@ -174,6 +175,13 @@ Plan(sc) ==
       \* a task whose destination is (the same file as) one of its own sources
       InPlace(k) == k \in fileDst /\ dstSt[k].k # "none"
                     /\ \E j \in 1..Len(tasks[k].srcs) : tasks[k].srcs[j] # <<>> /\ SrcIno(k, j) = Stat(T, dstC[k], TRUE).ino
+      \* A file minified onto itself is kept as <source>.bak while the new content is written (C20: "a sibling backup
+      \* (<name>.bak) holds them").  When something already has that name the backup cannot be made without modifying
+      \* another file (C19: "modifies no other file"): the only outcome consistent with both is that minifying this file
+      \* fails - "the destination receives the original bytes ... and the exit status is non-zero".
+      OntoSrc(k) == {j \in 1..Len(tasks[k].srcs) : tasks[k].srcs[j] # <<>> /\ SrcIno(k, j) = Stat(T, dstC[k], TRUE).ino}
+      Refused(k) == InPlace(k) /\ tasks[k].mode = "min"
+                    /\ Stat(T, Comps(tasks[k].srcs[Min(OntoSrc(k))] \o BakSuffix), FALSE).k # "none"
       SpelledSame(k) == \E j \in 1..Len(tasks[k].srcs) : tasks[k].srcs[j] = tasks[k].dst
       hazard ==
            (IF \E k1, k2 \in fileDst : k1 # k2 /\ dstReal[k1] = dstReal[k2] THEN {"two tasks share a destination"} ELSE {})
@@ -193,7 +201,7 @@ Plan(sc) ==
            (IF \E i \in 1..Len(items) : items[i].explicit /\ items[i].k = "f" /\ I.s /\ KindOf(items[i]) = "copy" THEN {"syncfile"} ELSE {})
         \cup
            (IF \E k \in fileDst : InPlace(k) /\ ~SpelledSame(k) THEN {"alias"} ELSE {})
-        \cup (IF \E k \in fileDst : InPlace(k) /\ tasks[k].mode = "min" /\ Lookup(T, JoinComps(dstReal[k]) \o BakSuffix).k # "none" THEN {"bak"} ELSE {})
+        \cup (IF \E k \in fileDst : Refused(k) THEN {"bak"} ELSE {})
   IN [tasks |-> tasks, unspec |-> unspec, hazard |-> hazard, known |-> known,
-      inplace |-> {k \in fileDst : InPlace(k)}, dstReal |-> [k \in 1..nT |-> JoinComps(dstReal[k])]]
+      inplace |-> {k \in fileDst : InPlace(k)}, refuse |-> {k \in fileDst : Refused(k)}, dstReal |-> [k \in 1..nT |-> JoinComps(dstReal[k])]]
 =============================================================================
